@@ -17,24 +17,6 @@ GEN, JUDGE = "UpdatesGen", "UpdatesJudge"
 DIV = "__DIVERGENCE__"
 NPROFILES = 5
 
-# known_findings.json is owned by the coordinator.  Until it carries an entry for this predicate (status
-# "known" or "fixed" - either one takes precedence), the finding of DESIGN.md section 4 #9 is treated as known
-# here so that the unchanged tree does not raise an alarm for it.
-DEFAULT_KNOWN = [{
-    "property": "C15", "kf": "KF_LineStringAtBreak", "status": "known", "commit": "",
-    "what": "Way.LineStringAt leaves its loop at the first too-late update (way.go:174 `break`): an applicable "
-            "update stored after a too-late one is not applied, so LineStringAt(t) differs from LineString() "
-            "of a copy after ApplyUpdatesUpTo(t) (index-sorted lists as annotation produces); "
-            "fix: fixes/C15-linestringat-continue.diff"}]
-
-
-def _install_known(ctx):
-    have = {k["kf"] for k in vlib.load_known() if k["property"] == ctx.prop}
-    for k in DEFAULT_KNOWN:
-        if k["kf"] not in have:
-            ctx.known.append(dict(k))
-
-
 def execute(ctx, cases):
     b = vlib.go_build("c15")
     recs = vlib.run_go(b, stdin_lines=cases)
@@ -146,7 +128,6 @@ def make_judge(ctx, divs):
 
 
 def run(ctx):
-    _install_known(ctx)
     model_check(ctx)
     t0 = time.time()
     files, cfg = generate(ctx)
@@ -185,6 +166,9 @@ def run(ctx):
         "symbolic values: times 0..tmax, coordinates/changesets/versions small integers mapped injectively by the harness "
         "(five time profiles rotated over the cases, offset by the seed: 1 s / 1 ns / 1 h / 1 day steps, epoch, 2038, a "
         "second boundary, different time zones for stamps and query times)",
+        "the element's own Timestamp (unset / before / at / between / after the update stamps) and Committed (nil / "
+        "earlier / equal / later) are rendered from the case (every combination in the smp = -1 plan entries, drawn by "
+        "TLC per case elsewhere); no Judge mentions them: the property does not, so no answer may depend on them",
         "update indices are 0..n (n = first index beyond the child list); negative indices are outside the property",
         "updates carry non-zero coordinates; 'fully annotated' = every way node has a version or a location",
         "where a child's applicable updates are stored out of time order (or with equal stamps) the Judge accepts the "
@@ -194,7 +178,6 @@ def run(ctx):
 
 
 def replay(ctx, rp):
-    _install_known(ctx)
     recs = execute(ctx, [rp["case"]])
     bad = vlib.tlc_judge(ctx, JUDGE, "UpdatesJudge.cfg", recs, shards=1)
     real = [b for b in bad if DIV not in (b[2] or [])]
